@@ -99,6 +99,9 @@ M = [
  dict(name="add_mod_carry_rebound", prop="C04", file="src/uint/add_mod.rs",
       old="        let (w, carry) = self.adc(rhs, Limb::ZERO);", new="        let (w, _carry) = self.adc(rhs, Limb::ZERO);\n        let carry = Limb::ZERO;",
       expect="carry|uint::add_mod::<impl uint::Uint<_>>::add_mod|adc"),
+ dict(name="uint_adc_chain_broken", prop="C04", file="src/uint/add.rs",
+      old="            let (w, c) = self.limbs[i].adc(rhs.limbs[i], carry);", new="            let (w, c) = self.limbs[i].adc(rhs.limbs[i], Limb::ZERO);",
+      expect="carry.final|uint::add::<impl uint::Uint<_>>::adc|adc"),
  dict(name="boxed_adc_assign_carry_not_chained", prop="C04", file="src/uint/boxed/add.rs",
       old="            self.limbs[i] = limb;\n            carry = b;", new="            self.limbs[i] = limb;",
       expect="carry|uint::boxed::add::<impl uint::boxed::BoxedUint>::adc_assign|adc"),
